@@ -256,6 +256,7 @@ func (e *Exec) readAt(st *State, name string, ft types.Type, idx string) Val {
 	case KRef:
 		t := e.S.Define("ld", "Int", e.sel(st, name, "Int", idx))
 		e.S.Assert(sx("<=", t, st.top))
+		e.ptrTypeFact(t, ft)
 		return vRef(t).withT(ft)
 	case KStruct:
 		stt := ft.Underlying().(*types.Struct)
@@ -406,12 +407,31 @@ func (e *Exec) typeFacts(v Val, t types.Type, st *State) {
 		}
 	case KRef:
 		e.S.Assert(sAnd(sx("<=", "0", v.t()), sx("<=", v.t(), st.top)))
+		e.ptrTypeFact(v.t(), t)
 	case KStruct:
 		stt := t.Underlying().(*types.Struct)
 		for i := range v.F {
 			e.typeFacts(v.F[i], stt.Field(i).Type(), st)
 		}
 	}
+}
+
+// ptrTypeFact: a non-nil pointer to a named struct type carries that dynamic type.
+func (e *Exec) ptrTypeFact(term string, t types.Type) {
+	if t == nil {
+		return
+	}
+	pt, ok := t.Underlying().(*types.Pointer)
+	if !ok {
+		return
+	}
+	if _, ok := pt.Elem().Underlying().(*types.Struct); !ok || isOpaqueStruct(pt.Elem()) {
+		return
+	}
+	if _, named := types.Unalias(pt.Elem()).(*types.Named); !named {
+		return
+	}
+	e.S.Assert(sImp(sNot(sEq(term, "0")), sEq(sx("typeof", term), sInt(int64(e.P.tagOf(types.NewPointer(pt.Elem())))))))
 }
 
 func (e *Exec) constVal(c *ssa.Const) Val {
